@@ -26,7 +26,8 @@ MonStep(m, e, ln) ==
          LET known == e.sock \in DOMAIN m.sk /\ e.tag \in DOMAIN m.dg
              hk    == known /\ m.sk[e.sock].to # 0
          IN [m EXCEPT !.viol = VAll(m.viol, e, ln,
-              << <<"Policy_DeniedDestination", known /\ ~hk /\ e.dst \notin m.allow>>,
+              \* the policy covers whatever destination the datagram really goes to - also a destination the hook chose
+              << <<"Policy_DeniedDestination", known /\ e.dst \notin m.allow>>,
                  <<"Policy_WrongDestination",  known /\ ~hk /\ e.dst # m.dg[e.tag]>>,
                  <<"Hook_NotRewritten",        hk /\ e.dst # m.sk[e.sock].to>> >>)]
     [] e.ev = "SockRead" -> IF e.ok THEN [m EXCEPT !.rp = Put(m.rp, e.tag, [sock |-> e.sock, src |-> e.src])] ELSE m
